@@ -28,11 +28,13 @@ class Monitor:
                 total = self.scheduler.size(flow_id)
                 total_bytes = self.scheduler.byte_size(flow_id)
 
-                if self.service_included:
+                # the scheduler's counters already include the packet in
+                # service (they are decremented when its transmission ends)
+                if not self.service_included:
                     service_pkt = self.scheduler.packet_in_service
-                    if service_pkt and service_pkt.flow_id == flow_id:
-                        total += 1
-                        total_bytes += service_pkt.size
+                    if service_pkt is not None and service_pkt.flow_id == flow_id:
+                        total -= 1
+                        total_bytes -= service_pkt.size
 
                 self.sizes[flow_id].append(total)
                 self.byte_sizes[flow_id].append(total_bytes)
